@@ -756,6 +756,7 @@ impl Actor for NodeServer {
                 crate::verif::ns_update(
                     &state.this_node_name.name,
                     actor_id,
+                    &name.name,
                     name.connection_id,
                     state.node_sessions.contains_key(&actor_id),
                 );
